@@ -1451,15 +1451,18 @@ inline validation_errc url::do_parse(const CharT* first, const CharT* last, cons
 
             res = detail::url_parser::url_parse(urls, first, last, base);
         }
+        if (res == validation_errc::ok) {
+            set_flag(VALID_FLAG);
+            // the search parameters are rebuilt inside the try block: if that fails, the
+            // url must not stay valid with parameters that do not match its query
+            parse_search_params();
+        }
     } catch (...) {
         // a parse aborted by an exception leaves an empty url as well
         reset_record();
         throw;
     }
-    if (res == validation_errc::ok) {
-        set_flag(VALID_FLAG);
-        parse_search_params();
-    } else {
+    if (res != validation_errc::ok) {
         // leave an empty url, not a half-built one: the getters of a url whose
         // parse failed would read offsets that do not describe the string
         reset_record();
